@@ -84,3 +84,29 @@ Theorem C02_documented_between_operations_partial :
        exists n0 nk, B0 !! p = Some n0 /\ Vp (pk_h pa h) w !! p = Some nk /\ copy_of n0 nk).
 Proof. exact c02_documented. Qed.
 Print Assumptions C02_documented_between_operations_partial.
+
+(* ------------------------------------------------------------------ *)
+(** ** the layering of the constructors New / NewWithFS
+    [ncfg q = mkConfig None [q] q]: HiddenFS directly over the OS filesystem
+    (no PrefixFS), the backup location [q] - an absolute cleaned path other
+    than "/" - hidden from the base and the root of the backup filesystem.
+    The base view [V0H q] (Spec/ViewRoot.v) is the WHOLE filesystem except the
+    location and what lies below it; it shows link targets as stored ([tn_0],
+    the identity: without PrefixFS nothing cleans them).  The root "/" is a
+    proper ancestor of the location ([anc_h q]): it cannot be removed (EBUSY)
+    or renamed.  Proofs/LawsNew.v. *)
+From BFS Require Import Spec.ViewHidden Spec.ViewRoot Proofs.LawsNew.
+
+Theorem C02_new_between_operations_partial :
+  forall q, hidden_ok q ->
+  forall B0, all_small B0 ->
+  forall w0 ops w,
+    initial (V0H q) (Vp q) tn_0 clean (acc_0 q) (acc_p q) B0 w0 ->
+    good_run (cfg_base (ncfg q)) (cfg_backup (ncfg q)) (V0H q) w0 ops w ->
+    (forall p n0, B0 !! p = Some n0 -> p <> s_root ->
+       sonode_eqv (V0H q w !! p) (Some n0) \/
+       exists nk, Vp q w !! p = Some nk /\ copy_of n0 nk) /\
+    (forall p, p <> s_root -> Vp q w !! p <> None ->
+       exists n0 nk, B0 !! p = Some n0 /\ Vp q w !! p = Some nk /\ copy_of n0 nk).
+Proof. exact c02_new. Qed.
+Print Assumptions C02_new_between_operations_partial.
